@@ -177,6 +177,12 @@ static uint64_t g_cur_index = 0;
 static std::string full_class(const dsim::Result &r)
 {
   std::string cls = r.cls;
+  if (r.status == dsim::kStepCap && cls == "stepcap" && (g_cur.cfg.strategy == dsim::kRandom || g_cur.cfg.strategy == dsim::kSticky)) {
+    // under a fair random schedule every runnable vthread gets a turn every few steps: not finishing a ~150 step program within the
+    // step cap is a livelock (threads keep writing, so the deadlock detector does not apply); classified like a deadlock
+    std::string tags = g_scn && g_scn->tags_for_runtime_class ? g_scn->tags_for_runtime_class(g_prog, "deadlock") : "";
+    return tags + " livelock (step cap reached under a fair random schedule)";
+  }
   if (cls.empty() || cls[0] != '[') {
     std::string tags = g_scn && g_scn->tags_for_runtime_class ? g_scn->tags_for_runtime_class(g_prog, r.cls) : "";
     cls = tags + " " + cls;
@@ -282,6 +288,7 @@ static EvalOut eval_in_child(const Program &p, RunSpec rs, bool strict, bool tra
     g_mode = kChild;
     g_child_fd = fds[1];
     g_prog = p;
+    g_cur = rs;
     rs.cfg.replay_strict = strict;
     rs.cfg.trace = trace;
     dsim::Result r = execute(rs);
@@ -549,7 +556,7 @@ static int cmd_explore(std::map<std::string, std::string> &a)
   std::vector<std::string> samples;
   uint64_t idx = from + offset;
   for (; idx < to; idx += stride) {
-    if ((evals & 63) == 0 && now_s() - t0 > time_limit) break;
+    if ((evals & 3) == 0 && now_s() - t0 > time_limit) break;
     const uint64_t seed_i = dsim::mix64(base, idx);
     dsim::Rng prog_rng(dsim::mix64(seed_i, 1)), cfg_rng(dsim::mix64(seed_i, 2));
     g_prog = Program{};
